@@ -9,11 +9,13 @@
 import Driver.CoreCmd
 import Driver.RewriteCmd
 import Driver.FunctorCmd
+import Driver.CartesianCmd
 
 def handlers : List (String → List String → Option String) :=
   [ DV.CoreCmd.handle
   , DV.RewriteCmd.handle
   , DV.FunctorCmd.handle
+  , DV.CartCmd.handle
   ]
 
 def handle (line : String) : String :=
